@@ -28,7 +28,17 @@ merge/split/foreign-merge operations (level 1 = every rectangle, level 2 = every
 and every split from each of the 405 single-rectangle states); in the quick tier level 2 uses the
 top-left/bottom-right orientation of each pair only (all four orientations in thorough);
 (4) the text oracle is the weak reading: the sequence of NON-EMPTY paragraph texts (empty paragraphs
-are not "text"); agreement with the strict paragraph-list model is reported as an extra counter.
+are not "text"); agreement with the strict paragraph-list model is reported as an extra counter;
+(5) in the quick tier `cell.text` (public API) is read for the cells the last operation worked on and
+the paragraph text of every cell is read from the bare-lxml view; the thorough tier reads every cell
+through both; (6) a full state check is skipped when byte-identical table XML was already checked
+against an identical model state in the same worker process (observations are a function of the XML).
+
+Signatures: `C14|<family>|<rule>:<detail>|<r>x<c>|<creation path, text cfg, size variant>|<history>`.
+Violating transitions are grouped by rule family (rectangular / regions / text / sizes / refusal /
+op-raised); per family the minimal witness of the whole run (smallest table, shortest history,
+canonical operation order — independent of seed and worker scheduling) is reported together with
+the first problem observed at that witness.
 """
 
 from __future__ import annotations
@@ -68,6 +78,8 @@ ASSUMPTIONS = [
     "two-paragraph cells; no runs with formatting, no line breaks, no fields",
     "text oracle is the weak reading (sequence of non-empty paragraph texts in row-major order of the merged "
     "cells); cells of a region other than the origin must read as empty",
+    "quick tier: cell.text (public API) is read for the cells the last operation touched, all cells are read from "
+    "the serialised XML with bare lxml; thorough tier: every cell through both",
     "a merge of a single unmerged cell with itself may either be a no-op or raise ValueError (unchanged either way)",
     "snapshot = copy.deepcopy of the p:graphicFrame element appended to the same shape tree (python-pptx relies "
     "on deepcopy keeping its element classes; asserted at run time); equal canon => equal future because table "
@@ -692,6 +704,8 @@ def run(ctx):
     t0 = time.time()
 
     seen = {}
+    nops = {}
+    expected_transitions = 0
     frontier = [(ci, ()) for ci in range(len(_CFGS))]
     level = 0
     completed = -1
@@ -706,6 +720,10 @@ def run(ctx):
                 capped = True
                 break
             batch = items[b0:b0 + BATCH]
+            for ci, h in batch:
+                if ci not in nops:
+                    nops[ci] = (len(ops_for(_CFGS[ci], False)), len(ops_for(_CFGS[ci], bool(_CFGS[ci][8]))))
+                expected_transitions += (1 + nops[ci][0]) if not h else nops[ci][1]
             fanout(ctx, _expand, batch, chunk_size=max(1, min(6, len(batch) // 64)))
             expanded += len(batch)
         if capped:
@@ -731,6 +749,10 @@ def run(ctx):
         expanded = 0
 
     # ---- results ----
+    if not ctx.sets.get("viol") and ctx.counters.get("transitions", 0) != expected_transitions:
+        raise HarnessError("transitions executed %r != |expanded states| x |alphabet| + creations = %d"
+                           % (ctx.counters.get("transitions"), expected_transitions))
+    ctx.extra["closed_form_transitions"] = expected_transitions
     last = ctx.sets.pop("states", set())
     all_states = set(seen) | last
     ctx.count("states", len(all_states))
